@@ -651,6 +651,9 @@ func runL0(seed int64, n int, dir string) error {
 	id++
 	fmt.Fprintf(cw, "%d probe encryptor-reuse\n", id)
 	fmt.Fprintf(iw, "%d %s\n", id, probeEncryptorReuse())
+	id++
+	fmt.Fprintf(cw, "%d probe unencrypted-prefix-is-refused\n", id)
+	fmt.Fprintf(iw, "%d %s\n", id, probeUnencryptedRefused())
 	for _, pass := range [][]byte{{}, nil, []byte("p"), []byte("a longer passphrase")} {
 		id++
 		fmt.Fprintf(cw, "%d probe stored-plaintext x%x\n", id, pass)
